@@ -306,6 +306,13 @@ Lemma theme_ids_doc :
   forallb (fun z => existsb (Z.eqb z) theme_ids) doc_theme_ids = true.
 Proof. vm_compute. reflexivity. Qed.
 
+Lemma label_positions_doc : same_set label_positions doc_label_positions = true.
+Proof. vm_compute. reflexivity. Qed.
+Lemma tooltip_positions_doc : same_set tooltip_positions doc_tooltip_positions = true.
+Proof. vm_compute. reflexivity. Qed.
+Lemma near_constants_doc : same_set near_constants doc_near_constants = true.
+Proof. vm_compute. reflexivity. Qed.
+
 Lemma asc_named : ascii_table doc_named_colors = true.  Proof. vm_compute. reflexivity. Qed.
 Lemma asc_shapes : ascii_table doc_shapes = true.  Proof. vm_compute. reflexivity. Qed.
 Lemma asc_arrow : ascii_table doc_arrowheads = true.  Proof. vm_compute. reflexivity. Qed.
@@ -711,6 +718,9 @@ Proof.
   - apply int_in_b_spec. intro z. tauto.
   - apply mem_word_In.
   - apply mem_word_In.
+  - apply mem_word_In.
+  - apply mem_word_In.
+  - apply mem_word_In.
 Qed.
 
 (* ================================================================ accept <-> documented domain *)
@@ -761,6 +771,9 @@ Proof.
   - rewrite atoi_in_is_int_in_b. apply int_in_b_spec. intro z. tauto.
   - apply is_bool_spec.
   - apply is_bool_spec.
+  - rewrite mem_word_In. apply same_set_In. exact label_positions_doc.
+  - rewrite mem_word_In. apply same_set_In. exact label_positions_doc.
+  - rewrite mem_word_In. apply same_set_In. exact tooltip_positions_doc.
 Qed.
 
 (* ---------------------------------------------------------------- width / height *)
@@ -1125,4 +1138,73 @@ Proof.
   - intro R. right. exists (fnum_Q false neg (pos_val (ip ++ fp)) (- Z.of_nat (length fp))).
     split; [exists false, neg, (pos_val (ip ++ fp)), (- Z.of_nat (length fp))%Z; split; [exact P | reflexivity]|].
     eapply RoundsIntoUnit_compat; [symmetry; apply decimal_value_eq | exact R].
+Qed.
+
+(* ================================================================ near constants *)
+Lemma near_constants_ident : forallb ident_word doc_near_constants = true.
+Proof. vm_compute. reflexivity. Qed.
+
+Lemma doc_near_key_b_spec p : doc_near_key_b p = true <-> DocNearKey p.
+Proof.
+  unfold doc_near_key_b, DocNearKey. split.
+  - destruct p as [[|w [|w2 r]]|]; try discriminate. intro H. apply mem_word_In in H. exists w. auto.
+  - intros (w & -> & H). apply mem_word_In. exact H.
+Qed.
+
+Section NearProofs.
+  Variable parse_key : list N -> option (list (list N)).
+  (* ParseKey reads a word of lower-case letters and single hyphens as a one-element path *)
+  Hypothesis H_ident : forall w, ident_word w = true -> parse_key w = Some [w].
+
+  Theorem near_complete v : DocNear v -> near_accepts parse_key v = true.
+  Proof.
+    intro Hin. pose proof near_constants_ident as Hid. rewrite forallb_forall in Hid.
+    unfold near_accepts. rewrite (H_ident v (Hid v Hin)).
+    apply mem_word_In. apply (same_set_In _ _ near_constants_doc). exact Hin.
+  Qed.
+
+  (* on values that denote a one-element key the decision is exactly membership in the constants *)
+  Theorem near_accept_iff_key v : (exists w, parse_key v = Some [w]) ->
+    (near_accepts parse_key v = true <-> DocNearKey (parse_key v)).
+  Proof.
+    intros (w & E). rewrite <- doc_near_key_b_spec. unfold near_accepts, doc_near_key_b. rewrite E.
+    rewrite !mem_word_In. apply (same_set_In _ _ near_constants_doc).
+  Qed.
+
+  Theorem near_guarded v :
+    near_accepts parse_key v = true -> exists h t, parse_key v = Some (h :: t) /\ DocNear h.
+  Proof.
+    unfold near_accepts. destruct (parse_key v) as [[|h t]|]; try discriminate.
+    intro M. exists h, t. split; [reflexivity|]. apply mem_word_In in M.
+    apply (same_set_In _ _ near_constants_doc). exact M.
+  Qed.
+End NearProofs.
+
+(* "top-center.foo": an oracle that satisfies the hypothesis and splits at the dot, as ParseKey does *)
+Definition str_top_center : list N := [116;111;112;45;99;101;110;116;101;114].
+Definition str_top_center_foo : list N := str_top_center ++ [46;102;111;111].
+Definition pk_witness (w : list N) : option (list (list N)) :=
+  if bytes_eqb w str_top_center_foo then Some [str_top_center; [102;111;111]] else Some [w].
+
+Lemma ident_word_no_dot w : ident_word w = true -> ~ In 46 w.
+Proof.
+  assert (T : forall s b, ident_tail s b = true -> ~ In 46 s).
+  { induction s as [|c r IH]; intros b H; [cbn; tauto|]. cbn [ident_tail] in H.
+    assert (Hc : c <> 46).
+    { intro; subst. cbn in H. discriminate. }
+    destruct (is_lc c); [|destruct ((c =? 45) && negb b); [|discriminate]];
+      apply IH in H; intros [E|E]; auto. }
+  unfold ident_word. destruct w as [|c r]; [discriminate|]. intro H. apply andb_prop in H as [Hc H].
+  apply T in H. intros [E|E]; [subst; discriminate Hc | auto].
+Qed.
+
+Theorem near_refuted :
+  (forall w, ident_word w = true -> pk_witness w = Some [w]) /\
+  near_accepts pk_witness str_top_center_foo = true /\ ~ DocNearKey (pk_witness str_top_center_foo).
+Proof.
+  split; [|split].
+  - intros w Hw. unfold pk_witness. destruct (bytes_eqb w str_top_center_foo) eqn:E; [|reflexivity].
+    apply bytes_eqb_eq in E. subst. exfalso. apply (ident_word_no_dot _ Hw). vm_compute. tauto.
+  - vm_compute. reflexivity.
+  - intro H. apply doc_near_key_b_spec in H. vm_compute in H. discriminate.
 Qed.
